@@ -507,5 +507,39 @@ def slc5(ctx: Ctx) -> None:
                    construct=f"{norm(e)} unguarded against index 0")
 
 
-C04 = [slc1, slc2, slc3, slc4, slc5]
+def slc6(ctx: Ctx) -> None:
+    """SLC-6 the walk through greenlet parents ends when there is no parent left, not when some greenlet has no frame: the
+    loop that steps `g = g.parent` is controlled by a test on g (a dead greenlet on the chain has gr_frame None and must
+    only contribute no frames)"""
+    mod = ctx.P.mod("_glue")
+    n = 0
+    for q, fn in mod.defs.items():
+        if not isinstance(fn, (ast.FunctionDef, ast.AsyncFunctionDef)):
+            continue
+        for st in ast.walk(fn):
+            if isinstance(st, ast.Assign) and len(st.targets) == 1 and isinstance(st.targets[0], ast.Name) and isinstance(st.value, ast.Attribute) \
+                    and st.value.attr == "parent" and norm(st.value.value) == st.targets[0].id and mod.enclosing_def(st) is fn:
+                gv = st.targets[0].id
+                if not any(isinstance(x, ast.Attribute) and x.attr == "gr_frame" and norm(x.value) == gv for x in ast.walk(fn)):
+                    continue
+                n += 1
+                ctx.R.saw(mod, q)
+                loops = [l for l in mod.ancestors(st) if isinstance(l, (ast.While, ast.For))]
+                loops = [l for l in loops if mod.enclosing_def(l) is fn]
+                if not loops:
+                    ctx.R.undecided("SLC-6", f"{q}: the greenlet parent step is not inside a loop")
+                    continue
+                outer = loops[-1]
+                if not isinstance(outer, ast.While) or (isinstance(outer.test, ast.Constant)):
+                    ctx.R.undecided("SLC-6", f"{q}: the greenlet parent walk is not a conditional while loop")
+                elif any(isinstance(x, ast.Name) and x.id == gv for x in ast.walk(outer.test)):
+                    ctx.R.ok("SLC-6", f"{q}: the walk `{gv} = {gv}.parent` runs while `{norm(outer.test)}`")
+                else:
+                    ctx.R.fail("SLC-6", mod, outer, f"{q}: the loop that follows greenlet parents runs while `{norm(outer.test)}`, which does not test the greenlet: a finished greenlet on the parent chain "
+                               "(gr_frame is None) ends the walk, and the frames of its ancestors (which an exception would still propagate through) are lost", construct=f"{q}: greenlet parent walk controlled by {norm(outer.test)}")
+    if n < 1:
+        raise AnalysisError("SLC-6: the greenlet parent walk (g = g.parent with g.gr_frame) was not found in _glue")
+
+
+C04 = [slc1, slc2, slc3, slc4, slc5, slc6]
 C09 = [gcm1, ctx678]
